@@ -35,6 +35,13 @@ pub assume_specification<T, const N: usize> [<[T; N] as AsMut<[T]>>::as_mut] (a:
 pub assume_specification<Idx: Clone> [<core::ops::Range<Idx> as Clone>::clone] (a: &core::ops::Range<Idx>) -> (r: core::ops::Range<Idx>)
     ensures call_ensures(Idx::clone, (&a.start,), r.start), call_ensures(Idx::clone, (&a.end,), r.end);
 
+pub mod shims_nondet {
+    use vstd::prelude::*;
+    // R3: which select! arm completes first is not modelled - every choice is verified
+    #[verifier::external_body]
+    pub fn nondet() -> bool { unimplemented!() }
+}
+
 // module tree of the rodbus crate (contents are fragments; every item text comes from /repo)
 pub mod error {
 use vstd::prelude::*;
@@ -409,13 +416,19 @@ impl vstd::std_specs::cmp::PartialEqSpecImpl for UnitId {
 }
 impl PartialEq for UnitId { fn eq(&self, other: &Self) -> bool { self.value == other.value } }
 
-#[derive(Clone, Copy, PartialEq, Eq)]
+#[derive(Clone, Copy)]
 pub struct AddressRange {
     
     pub start: u16,
     
     pub count: u16,
 }
+impl vstd::std_specs::cmp::PartialEqSpecImpl for AddressRange {
+    open spec fn obeys_eq_spec() -> bool { true }
+    open spec fn eq_spec(&self, other: &Self) -> bool { self.start == other.start && self.count == other.count }
+}
+impl PartialEq for AddressRange { fn eq(&self, other: &Self) -> bool { self.start == other.start && self.count == other.count } }
+
 #[derive(Clone, Copy, PartialEq)]
 pub struct ReadBitsRange {
     pub inner: AddressRange,
@@ -424,13 +437,19 @@ pub struct ReadBitsRange {
 pub struct ReadRegistersRange {
     pub inner: AddressRange,
 }
-#[derive(Clone, Copy, PartialEq, Eq)]
+#[derive(Clone, Copy)]
 pub struct Indexed<T> {
     
     pub index: u16,
     
     pub value: T,
 }
+impl<T: PartialEq> vstd::std_specs::cmp::PartialEqSpecImpl for Indexed<T> {
+    open spec fn obeys_eq_spec() -> bool { true }
+    open spec fn eq_spec(&self, other: &Self) -> bool { *self == *other }
+}
+impl<T: PartialEq> PartialEq for Indexed<T> { #[verifier::external_body] fn eq(&self, other: &Self) -> bool { unimplemented!() } }
+
 #[derive(Copy, Clone)]
 pub struct BitIterator<'a> {
     pub bytes: &'a [u8],
@@ -654,9 +673,10 @@ pub fn parse_all(
     ensures final(cursor).wf(),
         r is Ok <==> old(cursor).rest().len() == 2 * range.count as int,
         r is Ok ==> r->Ok_0.range == range && r->Ok_0.pos == 0 && r->Ok_0.bytes@ == old(cursor).rest() && (range.wf() ==> r->Ok_0.wf()),
+        r is Err ==> r->Err_0 is BadResponse,
 {
-        let bytes = cursor.read_bytes(2 * (range.count as usize))?;
-        cursor.expect_empty()?;
+        let bytes = (match cursor.read_bytes(2 * (range.count as usize)) { Ok(v__) => v__, Err(e__) => { return Err(From::from(e__)) } });
+        (match cursor.expect_empty() { Ok(v__) => v__, Err(e__) => { return Err(From::from(e__)) } });
         Ok(Self {
             bytes,
             range,
@@ -690,9 +710,10 @@ pub fn parse_all(
     ensures final(cursor).wf(),
         r is Ok <==> old(cursor).rest().len() == (range.count as int + 7) / 8,
         r is Ok ==> r->Ok_0.range == range && r->Ok_0.pos == 0 && r->Ok_0.bytes@ == old(cursor).rest() && (range.wf() ==> r->Ok_0.wf()),
+        r is Err ==> r->Err_0 is BadResponse,
 {
-        let bytes = cursor.read_bytes(crate::common::bits::num_bytes_for_bits(range.count))?;
-        cursor.expect_empty()?;
+        let bytes = (match cursor.read_bytes(crate::common::bits::num_bytes_for_bits(range.count)) { Ok(v__) => v__, Err(e__) => { return Err(From::from(e__)) } });
+        (match cursor.expect_empty() { Ok(v__) => v__, Err(e__) => { return Err(From::from(e__)) } });
         Ok(Self {
             bytes,
             range,
